@@ -9,6 +9,15 @@ PARTIAL = ('Static analysis decides only the structural clauses listed in DESIGN
            'property: breaking it breaks the behaviour for some input); the remaining, value-level clauses are not decided.')
 
 CHECKS = {
+    'C01': ('other', 'per-arm def-use dependency signatures, assignment census and operator polarity over the MIR of the ledger step',
+            'Decides only the structural skeleton of delta_for_tx: R1a which action arm assigns cost base / gain (a split assigns neither, only a sale realises a gain); '
+            'R1b required and forbidden input fields of each assigned value (a purchase\'s cost base depends on shares, price, rate, commission, commission rate, old '
+            'cost base; a sale\'s remaining cost base does not depend on price or commission); R1c add for Buy/SfLA, subtract for RoC; R1d commission x commission '
+            'rate, price x transaction rate. The arithmetic itself (equality with exact average-cost results to 1e-9) is NOT decided. ' + PARTIAL % 'C01'),
+    'C03': ('other', 'edge-condition, insertion-index expression and loop-advance rules over the MIR of the adjustment mechanism',
+            'R3a automatic SfLA rows only on the not-registered edge; R3b inserted at i+k+1 and the loop advances by one without skipping (each evaluated once, right '
+            'after its sale); R3c none generated when the user supplied the loss; R3d each amount depends on the denied amount and the affiliate\'s ratio; R3e reported '
+            'gain = loss - denied amount. The conservation identity itself is NOT decided. ' + PARTIAL % 'C03'),
     'C02': ('other', 'constant evaluation of the window bounds and tolerance + comparison normalisation on loop-exit edges + who-uses rule over MIR',
             'R2a window = settlement date -/+ Duration::days(30) from exactly two public functions; R2b bookkeeping and summary use only those (no private date '
             'arithmetic) on Tx.settlement_date; R2c both scan loops stop strictly outside the bounds (day +-30 inclusive); R2d the specified-loss tolerance '
@@ -53,6 +62,10 @@ CHECKS = {
             'The live rates-<year>.csv name reaches only read-only sinks and the destination of rename(); write_rates writes a temp file, '
             'flushes, fsyncs and renames in that order on every non-error path and discards no Result on the way. Under POSIX rename '
             'atomicity no prefix of a new cache file is ever observable under the live name, for every crash point.'),
+    'C15': ('other', 'assignment census of the Split arm, dependency of the new balance, store census of the global-split expansion, scan-loop case coverage',
+            'R15a the Split arm assigns neither cost base nor gain; R15b the new balance depends on the ratio and the old balance; R15c global-split expansion clones '
+            'the row and overwrites the affiliate only; R15d both superficial-loss window scans apply splits. The metamorphic relation between rescaled runs is NOT '
+            'decided. ' + PARTIAL % 'C15'),
     'C16': ('other', 'must-precede (dominator + data dependence) of parse_initial_status before processing in each front end; use-set rule on the opening-position map',
             'R16a every front end starts processing only after, and with the Ok payload of, parse_initial_status; R16b the opening-position map is only queried with '
             'get(&current security), whose result goes to that security\'s bookkeeping call. ' + PARTIAL % 'C16'),
@@ -65,10 +78,7 @@ CHECKS = {
 }
 
 NOT_APPLICABLE = {
-    'C01': 'equality (to 1e-9) of every balance, cost base and gain with exact average-cost arithmetic is a relation between run-time decimals over all histories; the only static handle (expression shape of five match arms) would reject equivalent rewrites and decide nothing about rounding (DESIGN.md section 6)',
-    'C03': 'the conservation identity is an equation over prefix sums of run-time values and affiliate ratios; no clause of it is a shape of the code that is also necessary',
     'C10': 'a round trip over histories x cut dates (generate the summary, re-run, compare); whether a generated row falls inside a later 30-day window is date arithmetic on run-time values',
-    'C15': 'a metamorphic relation between two runs on rescaled inputs through Decimal division with rounding; not visible in the shape of the code',
     'C17': 'maxima and carry-forward over run-time sequences; which run-time value is carried is a semantic choice invisible in shape (its tie-break clause is decided under C09)',
     'C19': 'regex extraction from free text plus a subset-sum search over run-time share counts and dates; "each trade exactly once" depends on values',
 }
